@@ -6,6 +6,8 @@ import (
 	"strings"
 	"testing"
 
+	distiller "github.com/markusmobius/go-domdistiller"
+	"golang.org/x/net/html"
 	"pgregory.net/rapid"
 )
 
@@ -54,12 +56,26 @@ func checkC13(c *Case) (*Violation, caseInfo) {
 	var mediaRetained bool
 	for _, url := range []string{"", c.Opts.URL} {
 		var baseRest string
+		// a caller typically builds the URL once and reuses it: every configuration of this loop
+		// shares one *url.URL
+		sharedURL := OptSpec{URL: url}.BuildURL()
+		wantURL := ""
+		if sharedURL != nil {
+			wantURL = sharedURL.String()
+		}
 		for algo := uint(0); algo < 2; algo++ {
 			for _, skip := range []bool{false, true} {
 				var first, firstPag string
 				for flags := uint(0); flags < 32; flags++ {
 					o := OptSpec{URL: url, Algo: algo, Skip: skip, LogFlags: flags}
-					_, out := applyHTML(c.HTML, o)
+					opts := o.Build()
+					opts.OriginalURL = sharedURL
+					doc, perr := html.Parse(strings.NewReader(c.HTML))
+					if perr != nil {
+						info.Skip = "parse-failed"
+						return nil, info
+					}
+					out := guarded(0, func() (*distiller.Result, error) { return distiller.Apply(doc, opts) })
 					if out.Panicked || out.Err != nil || out.Res == nil {
 						info.Skip = "apply-failed"
 						return nil, info
@@ -67,10 +83,6 @@ func checkC13(c *Case) (*Violation, caseInfo) {
 					cfg := fmt.Sprintf("url=%v algo=%d skip=%v flags=%d", url != "", algo, skip, flags)
 					rest, pag := splitCanon(canonical(out.Res))
 					// (4) Result.URL
-					wantURL := ""
-					if url != "" {
-						wantURL = o.BuildURL().String()
-					}
 					if out.Res.URL != wantURL && viol == nil {
 						viol = violationf("C13 result-url", "Result.URL=%q, expected %q (%s)", out.Res.URL, wantURL, cfg)
 					}
